@@ -138,7 +138,9 @@ fn kind_of(k: usize) -> Kind {
         10 => Kind::ViaAwait100 { saw_100: false },
         11 => Kind::SizedViaAwait100(u64::MAX, true),
         12 => Kind::DespiteSized(u64::MAX, true),
-        _ => Kind::DespiteChunkedHeaderFirst,
+        13 => Kind::DespiteChunkedHeaderFirst,
+        14 => Kind::DefaultChunkedExtraHeadWrites,
+        _ => Kind::SizedExtraHeadWrites(u64::MAX),
     }
 }
 
@@ -168,7 +170,7 @@ fn exec_enum(t: &mut Tape, st: &mut Stats) -> Result<(), String> {
     if k == 3 {
         // caller-supplied framing in unusual but legal shapes: coding name in another case, Content-Length next to chunked
         // (chunked wins and the declared length is no limit), codings on two lines
-        return check_one(kind_of(5 + n % 9), n, st);
+        return check_one(kind_of(5 + n % 11), n, st);
     }
     if k == 2 {
         // every n also against a small declared length, fresh and after some of it was sent; and over HTTP/1.0
@@ -180,7 +182,7 @@ fn exec_enum(t: &mut Tape, st: &mut Stats) -> Result<(), String> {
 }
 
 fn exec_random(t: &mut Tape, st: &mut Stats) -> Result<(), String> {
-    let k = t.below(14);
+    let k = t.below(16);
     // 0 => just above the enumerated range; otherwise up to 2^22 with a bias to boundaries
     let n = match t.weighted(&[2, 3, 3]) {
         0 => ENUM_MAX as usize + 1 + t.below(4096),
@@ -198,10 +200,10 @@ pub static DEF: PropDef = PropDef {
     id: "C18",
     rule: "enumeration: every output length n in 0..=30808 x {chunked, length-delimited with a huge declared length, chunked over \
 HTTP/1.0, caller-supplied framing in unusual legal shapes rotating with n (Transfer-Encoding: Chunked / CHUNKED, chunked next to a \
-Content-Length of 3, codings on two lines next to a Content-Length, the body state reached through Await100 with and without the interim 100, framing added with Flow::header() before send-body-despite-method), every fourth case after a finishing attempt that found no room (buffer 0..4: nothing emitted, body not finished); plus calculate_max_input(n) == n on a 1000-byte declared length, fresh and after 300..999 bytes were sent} on a Flow in the \
+Content-Length of 3, codings on two lines next to a Content-Length, the body state reached through Await100 with and without the interim 100, framing added with Flow::header() before send-body-despite-method, SendRequest::write called again after the head was complete), every fourth case after a finishing attempt that found no room (buffer 0..4: nothing emitted, body not finished); plus calculate_max_input(n) == n on a 1000-byte declared length, fresh and after 300..999 bytes were sent} on a Flow in the \
 body state: m = calculate_max_input(n) must satisfy m <= n, m(n-1) <= m(n), m == n when not chunked, and \
 one write of m pattern bytes into an n-byte buffer must consume exactly m and decode (strict chunk decoder / \
-identity) to that input. random: n up to 2^22 biased to multiples of the chunk unit, fourteen body kinds. \
+identity) to that input. random: n up to 2^22 biased to multiples of the chunk unit, sixteen body kinds. \
 non-trivial = m > 0 and n within 16 of a hex-digit boundary (16^k + overhead) or of a multiple of \
 chunk+overhead; distinct by (n, chunked).",
     assumptions: &[
